@@ -56,9 +56,29 @@ fn corpus(seed: u64, n: u64, max_nodes: usize) -> Vec<(String, Tree)> {
         };
         let mut t = tree::gen_tree(&mut r, &cfg);
         tree::shorten(&mut t);
+        if id % 3 == 1 {
+            special_action_names(&mut t);
+        }
         games.push((format!("rand{id}"), t));
     }
     games
+}
+
+/// action names with characters that need escaping in both input formats (and come back in the printed strategies)
+fn special_action_names(t: &mut Tree) {
+    match t {
+        Tree::T { .. } => {}
+        Tree::C { kids, .. } => kids.iter_mut().for_each(|k| special_action_names(&mut k.t)),
+        Tree::P { kids, .. } => kids.iter_mut().for_each(|k| {
+            let h = k.a.bytes().fold(0u32, |x, b| x.wrapping_mul(31).wrapping_add(b as u32));
+            k.a = match h % 3 {
+                0 => format!("{} \"q\"", k.a),
+                1 => format!("{}\\b", k.a),
+                _ => k.a.clone(),
+            };
+            special_action_names(&mut k.t)
+        }),
+    }
 }
 
 /// printed strategies -> [[info, [[action, n, d], ...]], ...] per player with exactness flag
@@ -808,6 +828,22 @@ fn record_c17(sink: &mut Sink, exe: &str, dir: &str, games: &[(String, Tree)], r
                 let route = &routes[(k * 3 + gi + vi) % routes.len()];
                 case(sink, name, what, class, txt, None, route, runs);
             }
+        }
+    }
+    // trees that break perfect recall ONLY through the own action (same earlier infoset, different action), for either
+    // player, directly and with a move of the other player in between: game-error under every parser
+    for (vi, (pl, deep)) in [(1u8, false), (2, false), (1, true), (2, true)].into_iter().enumerate() {
+        let t = zoo::forgot_action(pl, deep);
+        let style = Style { sum: 0, scale: 1, interior: 0.0, share: 0.0, unnamed: 0.3, by_reference: 0.5, shuffle: true };
+        let doc = cli::to_doc(&t, &style, rng);
+        let text = cli::render_efg(&doc, rng);
+        for k in 0..2 {
+            let route = &routes[[1usize, 3, 0, 5][(vi + 2 * k) % 4]];
+            case(sink, "forgot-action", "recall-action", "efg", &text, Some(&doc), route, runs);
+        }
+        let js = cli::render_json(&t).to_string();
+        for route in [&routes[2], &routes[4]] {
+            case(sink, "forgot-action", "recall-action", "json-contract", &js, None, route, runs);
         }
     }
 }
